@@ -44,7 +44,7 @@ func main() {
 	var decls []decl
 	var reg []string
 	pad := func() string { return strings.Repeat("\n", r.Intn(4)) }
-	shapes := []string{"plain", "closure", "defer", "goroutine", "nested", "funcvalue", "method", "methodvalue", "generic", "inlinable", "noinline", "wrap2", "wrap2noinline", "wrap3", "wrap3mixed", "deferloop", "closurearg", "followedbyinline", "inlinablemid", "followedbystmt", "tinyhelper", "tinyhelper", "tinyhelper"}
+	shapes := []string{"plain", "closure", "defer", "goroutine", "nested", "funcvalue", "method", "methodvalue", "generic", "inlinable", "noinline", "wrap2", "wrap2noinline", "wrap3", "wrap3mixed", "deferloop", "closurearg", "followedbyinline", "inlinablemid", "followedbystmt", "tinyhelper", "tinyhelper", "tinyhelper", "skipbeyond"}
 
 	for i := 0; i < *n; i++ {
 		id := i + 1
@@ -99,6 +99,10 @@ func main() {
 			default: // two levels of inlining
 				fmt.Fprintf(&b, "func %st%d(c *siteCtx) {\n\t%s\n\t%s\n}\n\nfunc %su%d(c *siteCtx) {\n\t%st%d(c)\n}\n\nfunc %s(c *siteCtx) {\n\tc.wantFunc(%d, %st%d, 1)\n\t%su%d(c)\n}\n", P, id, c2, tailStmt, P, id, P, id, name, id, P, id, P, id)
 			}
+		case "skipbeyond":
+			// Record with a skip that points beyond the goroutine's outermost frame: there is no such
+			// frame, the location is empty - in both lookup modes, whatever was looked up before
+			fmt.Fprintf(&b, "func %s(c *siteCtx) { c.wantEmpty(%d); log.Record(c.ctx, log.InfoLevel, c.tag, %d, log.Int(\"id\", %d)) }\n", name, id, 40+id%60, id)
 		case "closure":
 			fmt.Fprintf(&b, "func %s(c *siteCtx) {\n\tf := func() { %s; %s }\n\tf()\n}\n", name, want, call(entry, id, ""))
 		case "closurearg":
